@@ -150,10 +150,10 @@ def plumbing_cases(ctx, count):
     rng = ctx.rng
     cases = []
     for t in range(count):
-        n = rng.randint(1, 5)
+        n = rng.randint(0, 5)
         d = rng.choice([-1, 0, 2])
         cases.append(_case_values(n, _rand_values(rng, n), d))
-        nr, nc = rng.randint(1, 4), rng.randint(1, 4)
+        nr, nc = rng.randint(0, 4), rng.randint(0, 4)
         cases.append(_case_stack(nr, nc, _rand_values(rng, nr), _rand_values(rng, nc), d))
         # get_adjacency_values on a real matrix
         square = rng.random() < 0.6
@@ -1037,7 +1037,9 @@ def run(ctx):
     ctx.extra['phase_seconds'] = phases
     ctx.extra['relation_outcomes'] = outcomes.d
     dead = [k for k, v in outcomes.d.items() if v['compared'] == 0 or v['nontrivial'] == 0]
-    if dead:
+    if dead and (ctx.spec_failures or ctx.run_disagreements):
+        ctx.note('entries never compared non-trivially in this run (reported failures take precedence): %s' % dead)
+    elif dead:
         raise ToolFailure('no relation case of %s was compared non-trivially (the reference raises or is constant every time): '
                           'the entry is not being checked' % dead)
 
